@@ -63,8 +63,15 @@ Fixpoint mt_leaves (t : mtree) : list bloom :=
 
 (* big.Int.Bytes: minimal big-endian form; LogBytes: left-padded to 256 bytes *)
 Definition byte_len (b : N) : nat := N.to_nat ((N.size b + 7) / 8).
-Definition bloom_bytes (b : bloom) : bytes := be_bytes (byte_len b) b.
-Definition bloom_log_bytes (b : bloom) : bytes := be_bytes logs_bloom_bytes b.
+(* the n low-order bytes of v, least significant first, then reversed *)
+Fixpoint le_bytes (n : nat) (v : N) : bytes :=
+  match n with
+  | O => []
+  | S k => N.land v 255 :: le_bytes k (N.shiftr v 8)
+  end.
+Definition n_be_bytes (n : nat) (v : N) : bytes := rev (le_bytes n v).
+Definition bloom_bytes (b : bloom) : bytes := n_be_bytes (byte_len b) b.
+Definition bloom_log_bytes (b : bloom) : bytes := n_be_bytes logs_bloom_bytes b.
 (* big.Int.SetBytes *)
 Definition bloom_of_bytes (bs : bytes) : bloom := be_val bs.
 
@@ -74,8 +81,8 @@ Section WithHash.
   Variable H : bytes -> N.
 
   (* binary.BigEndian.Uint16(h[i*2:i*2+2]) & (LogsBloomBits-1), i = 0,1,2 *)
-  Definition digest_u16 (d : N) (i : N) : N := (d / 2 ^ (240 - 16 * i)) mod 65536.
-  Definition digest_idx (d : N) (i : N) : N := digest_u16 d i mod logs_bloom_bits.
+  Definition digest_u16 (d : N) (i : N) : N := N.land (N.shiftr d (240 - 16 * i)) 65535.
+  Definition digest_idx (d : N) (i : N) : N := N.land (digest_u16 d i) (logs_bloom_bits - 1).
 
   (* addBit: big.Int.SetBit(idx, 1) *)
   Definition add_bit (b : bloom) (idx : N) : bloom := N.setbit b idx.
